@@ -8,6 +8,7 @@
       debts worth more than 10^22).
 -/
 import Demeter.AaveRisk.Basic
+import Demeter.Wallet
 namespace Demeter.AaveRisk
 open Demeter
 
@@ -125,5 +126,16 @@ def liqLoop (cx : NumCtx) : Nat → Portfolio → List String → List LiqAction
 
 /-- `AaveV3Market.update()` -/
 def liquidate (cx : NumCtx) (p : Portfolio) : LiqResult := liqLoop cx (p.debts.length + 1) p [] []
+
+/-- the broker's wallet next to the market's positions -/
+structure Account where
+  wallet : Wallet
+  pf : Portfolio
+
+/-- `AaveV3Market.update()` seen from the broker: `_liquidate` / `_do_liquidate` never call
+    `broker.add_to_balance` / `subtract_from_balance` -/
+def update (cx : NumCtx) (acc : Account) : Account × LiqResult :=
+  let r := liquidate cx acc.pf
+  ({ acc with pf := r.p }, r)
 
 end Demeter.AaveRisk
